@@ -284,7 +284,9 @@ func (vc *VC) builtinAppend(st *State, s, add Val, addIsString bool, t types.Typ
 	stGr.assume(vc, Not(fits))
 	id := vc.allocRegion(stGr, et)
 	ncap := vc.fresh("ncap", "Int")
-	stGr.assume(vc, And(Ge(ncap, newLen), Le(ncap, Add(Mul("2", newLen), "1024"))))
+	// growth: at least what is needed and at least 1.25 times the old capacity (runtime.growslice: doubling below 256
+	// elements, +25% (+192) above, rounded up to a size class), at most twice the needed length plus a constant
+	stGr.assume(vc, And(Ge(ncap, newLen), Ge(Mul("4", ncap), Mul("5", s.Cap)), Le(ncap, Add(Mul("2", newLen), "1024"))))
 	vc.ghostAlloc(stGr, Mul(ncap, numI(elemSize(et))))
 	saved := vc.modset
 	vc.modset = nil
